@@ -2,7 +2,7 @@
 StreamProcessor)."""
 from __future__ import annotations
 
-from props.c07_core import Drv, Entity, Event
+from props.c07_core import Drv, Entity, Event, P, R
 
 from happysimulator.components.messaging import DeadLetterQueue, MessageQueue, Topic
 from happysimulator.components.streaming import (ConsumerGroup, EventLog, SessionWindow, SlidingWindow,
@@ -45,8 +45,8 @@ class MessageQueueDrv(Drv):
     ops = ("publish", "publish_nack", "publish_reject")
 
     def build(self, cfg):
-        self.dlq = DeadLetterQueue("dlq", capacity=2, retention_period=2.0)
-        self.q = MessageQueue("mq", delivery_latency=cfg.L, redelivery_delay=1.0, max_redeliveries=2,
+        self.dlq = DeadLetterQueue("dlq", capacity=2, retention_period=P(2.0))
+        self.q = MessageQueue("mq", delivery_latency=cfg.L, redelivery_delay=P(1.0), max_redeliveries=2,
                               dead_letter_queue=self.dlq)
         self.c1 = _Consumer("c1", self.q, cfg.L)
         self.c2 = _Consumer("c2", self.q, cfg.L)
@@ -69,9 +69,9 @@ class DeadLetterQueueDrv(Drv):
     ops = ("deadletter", "reprocess")
 
     def build(self, cfg):
-        self.dlq = DeadLetterQueue("dlq", capacity=3, retention_period=1.0)
+        self.dlq = DeadLetterQueue("dlq", capacity=3, retention_period=P(1.0))
         # the queue in front of the DLQ delivers with zero latency here: this driver is about the DLQ paths
-        self.q = MessageQueue("mq", delivery_latency=0.0, redelivery_delay=0.5, max_redeliveries=0,
+        self.q = MessageQueue("mq", delivery_latency=0.0, redelivery_delay=P(0.5), max_redeliveries=0,
                               dead_letter_queue=self.dlq)
         self.c1 = _Consumer("c1", self.q, cfg.L)
         self.q.subscribe(self.c1)
@@ -81,7 +81,7 @@ class DeadLetterQueueDrv(Drv):
         if op == "deadletter":
             msg = self.h.ev(self.h.out, "order", {"metadata": {"mode": "nack", "i": i}})
             yield from self.q.publish(msg)
-            return [self.h.ev(self.q, "poll"), self.h.ev(self.dlq, "cleanup", delay=1.5)]
+            return [self.h.ev(self.q, "poll"), self.h.ev(self.dlq, "cleanup", delay=P(1.5))]
         yield self.cfg.L
         return self.dlq.reprocess_all(self.q) + [self.h.ev(self.dlq, "clear")]
 
@@ -127,8 +127,8 @@ class EventLogDrv(Drv):
     ops = ("append", "read")
 
     def build(self, cfg):
-        self.log = EventLog("log", num_partitions=2, retention_policy=TimeRetention(max_age_s=1.0),
-                            append_latency=cfg.L, read_latency=cfg.L, retention_check_interval=0.5)
+        self.log = EventLog("log", num_partitions=2, retention_policy=TimeRetention(max_age_s=P(1.0)),
+                            append_latency=cfg.L, read_latency=cfg.L, retention_check_interval=P(0.5))
         return [self.log]
 
     def request(self, i, op):
@@ -177,7 +177,7 @@ class _StreamDrv(Drv):
         self.side = _Sub("side")
         self.sp = StreamProcessor("sp", window_type=self.window(), aggregate_fn=len, downstream=self.h.out,
                                   allowed_lateness_s=0.0, late_event_policy=self.policy, side_output=self.side,
-                                  watermark_interval_s=0.5)
+                                  watermark_interval_s=P(0.5))
         return [self.sp, self.side]
 
     def request(self, i, op):
@@ -188,18 +188,18 @@ class _StreamDrv(Drv):
 
 class StreamProcessorTumblingDrv(_StreamDrv):
     covers = ("StreamProcessor", "TumblingWindow")
-    window = staticmethod(lambda: TumblingWindow(size_s=0.5))
+    window = staticmethod(lambda: TumblingWindow(size_s=P(0.5)))
 
 
 class StreamProcessorSlidingDrv(_StreamDrv):
     covers = ("StreamProcessor", "SlidingWindow")
-    window = staticmethod(lambda: SlidingWindow(size_s=1.0, slide_s=0.5))
+    window = staticmethod(lambda: SlidingWindow(size_s=P(1.0), slide_s=P(0.5)))
     policy = LateEventPolicy.UPDATE
 
 
 class StreamProcessorSessionDrv(_StreamDrv):
     covers = ("StreamProcessor", "SessionWindow")
-    window = staticmethod(lambda: SessionWindow(gap_s=0.5))
+    window = staticmethod(lambda: SessionWindow(gap_s=P(0.5)))
     policy = LateEventPolicy.DROP
 
 
